@@ -444,6 +444,10 @@ S4_MORE["C20"] = ("Azimuthal contour under contract: _azimuthal_mesh_from_hvsr (
 S4_MORE["C14"] = ("The public layer of HvsrSpatial under contract: __init__ (the sensors in the order given in own storage; fewer than three or not (N, 2) refused), spatial_weights "
                  "((weights, indices) exactly as _voronoi_weights returns them for the caller's boundary; another method refused), bounded_voronoi (clipped by the mask made from "
                  "the caller's boundary), _boundary_to_mask (the convex hull of exactly the boundary rows taken as points (x, y); not (N, 2) refused).")
+S4_MORE["C20"] += (" plot_seismic_recordings_3c under contract (three axes given, a list of recordings of symbolic length, with and without normalisation and mask): axis a shows component a "
+                  "of every recording in order, one line each carrying the samples divided by one common factor (1 without normalisation; positive with it when some sample is "
+                  "non-zero), against the recording's own time vector shifted so that the recordings follow one another; accepted style exactly for the recordings the mask accepts "
+                  "(all without a mask); a mask of another length is refused; the recordings are not written.")
 for _k, _v in S4_MORE.items():
     S4[_k] = ((S4[_k][0] + " " + _v,) + tuple(S4[_k][1:])) if _k in S4 else (_v, None, None)
 for _pid, (_t, _n, _tech) in S4.items():
